@@ -46,9 +46,21 @@ func nxConfigs(part string, thorough bool) []*nxCfg {
 			{Name: "warm-write-crash", N: 3, MaxDev: pick(2, 3), Prefix: nxWarm, Script: []string{"W1", "W2", "H1", "T2", "H2", "W2"}, Timeouts: 1, Crashes: 2, Drops: 2, Reorders: 1, Horizon: 120},
 			{Name: "prevote-crash", N: 3, PreVote: true, CheckQuorum: true, MaxDev: pick(2, 3), Script: []string{"T1", "H1", "W1", "T2", "H2"}, Timeouts: 1, Crashes: 2, Drops: 2, Horizon: 120},
 		}
+	case "c11":
+		return []*nxCfg{
+			{Name: "apply-lag-crash", N: 3, MaxDev: pick(2, 3), Prefix: nxWarm, Script: []string{"W1", "W2", "W3", "H1", "C2", "H1", "W1", "H1"}, Crashes: 1, Drops: 2, LazyApplies: 1, Timeouts: 1, Dups: 1, Horizon: 200},
+			{Name: "leaderchange-restart", N: 3, MaxDev: pick(2, 3), Prefix: nxWarm, Script: []string{"W1", "T2", "W2", "H2", "C1", "H2", "W3", "H2"}, Crashes: 1, Drops: 2, LazyApplies: 1, Reorders: 1, Horizon: 200},
+		}
+	case "c12":
+		return []*nxCfg{
+			{Name: "stop-with-pending", N: 3, MaxDev: pick(2, 3), Prefix: nxWarm, Script: []string{"W1", "R2", "W2", "R1", "S2", "W1", "S1"}, Drops: 3, Stops: 1, LazyApplies: 1, Writes: 1, Reads: 1, Horizon: 200},
+			{Name: "expiry", N: 3, MaxDev: pick(2, 3), Prefix: nxWarm, Script: []string{"w1", "r2", "K1", "K2", "K1", "K2", "K1", "K2", "K1", "K2", "K1", "K2", "K1", "K2", "K1", "K2"}, Drops: 4, LazyApplies: 1, Timeouts: 1, Horizon: 200},
+			{Name: "notify-commit", N: 3, NotifyCommit: true, MaxDev: pick(2, 3), Prefix: nxWarm, Script: []string{"W1", "W2", "R1", "S1"}, Drops: 2, Stops: 1, LazyApplies: 1, Timeouts: 1, Horizon: 200},
+		}
 	case "c01":
 		return []*nxCfg{
 			{Name: "w-r-leaderchange", N: 3, MaxDev: pick(2, 3), Prefix: nxWarm, Script: []string{"W1", "R2", "W2", "R1", "H1"}, Timeouts: 2, Crashes: 1, Drops: 3, Reorders: 1, LazyApplies: 1, Reads: 1, Writes: 1, Heartbeats: 1, Transfers: 1, Horizon: 150},
+			{Name: "newleader-read", N: 3, MaxDev: pick(2, 3), Prefix: nxWarm, Script: []string{"W1", "T2", "R2", "H2"}, Reads: 1, LazyApplies: 1, Reorders: 1, Drops: 2, Horizon: 150},
 			{Name: "reads-follower", N: 3, MaxDev: pick(2, 3), Prefix: nxWarm, Script: []string{"W2", "R3", "R1", "W3", "R2", "H1"}, Timeouts: 2, Crashes: 1, Drops: 3, LazyApplies: 1, Heartbeats: 1, Horizon: 150},
 		}
 	}
